@@ -1153,12 +1153,21 @@ func (c *Ctx) checkStopSignal(r *Report, a *asyncInfo) {
 		return nil
 	}
 	ts.OnSelect = func(s *TSCtx, sel *ssa.Select, chosen int) []string {
+		add := func(tok string) []string {
+			if strings.Count(s.A, tok) >= 2 {
+				return nil // saturate: loops must not grow the automaton state
+			}
+			return []string{s.A + tok}
+		}
 		if chosen < 0 {
-			return []string{s.A + "SKIP(default);"}
+			return add("SKIP(default);")
 		}
 		st := sel.States[chosen]
 		if st.Dir == types.SendOnly && chanFieldOf(st.Chan) == a.Buf {
-			return []string{s.A + "SIG(select-send);"}
+			return add("SIG(select-send);")
+		}
+		if st.Dir == types.RecvOnly && chanFieldOf(st.Chan) == a.Buf {
+			return add("DROP(recv);")
 		}
 		return nil
 	}
@@ -1180,7 +1189,10 @@ func (c *Ctx) checkStopSignal(r *Report, a *asyncInfo) {
 			bad = append(bad, "Stop waits before signalling")
 		}
 		if strings.Contains(o.A, "SKIP(default)") {
-			bad = append(bad, "the stop signal is sent non-blockingly and can be skipped when the buffer is full")
+			bad = append(bad, "the stop signal is sent non-blockingly: with a full buffer it is subject to the overflow policy (dropped under Discard, so Stop never returns; evicting accepted items under DiscardOldest)")
+		}
+		if strings.Contains(o.A, "DROP(recv)") {
+			bad = append(bad, "Stop removes accepted items from the queue")
 		}
 	}
 	// the wait channel is the one the worker closes / sends on
